@@ -185,6 +185,16 @@ func genShape(p *pkgInfo, out string) {
 			strings.Contains(hbt, "context.WithCancel(termCtx)"))
 	flag("termCancelledOnDemotion", "becomeFollower cancels the term context", strings.Contains(squash(p.src(bf.Body)), "e.termCancel()"))
 	flag("healthCountResetPerTerm", "becomeLeader resets the health failure count", strings.Contains(hbt, "e.healthFailureCount.Store(0)"))
+	// StopWithContext: one deadline for all its waits, key deletion not a blocking call of the caller
+	swc := squash(p.src(p.fn("kvElection.StopWithContext").Body))
+	flag("stopWaitsShareDeadline", "StopWithContext computes one deadline and every wait of it uses time.Until(deadline)",
+		strings.Contains(swc, "deadline := time.Now().Add(timeout)") && strings.Count(swc, "time.After(time.Until(deadline))") >= 3 &&
+			!strings.Contains(swc, "time.After(timeout)"))
+	flag("stopDeleteAsync", "StopWithContext issues the key deletion from a goroutine and waits for it under the deadline",
+		strings.Contains(swc, "go func() { deleted <- e.kv.Delete(e.key) }()") && strings.Count(swc, "e.kv.Delete(") == 1)
+	st := squash(p.src(p.fn("kvElection.Stop").Body))
+	flag("stopWaitsFiveSeconds", "Stop waits for the background goroutines for at most 5 s", strings.Contains(st, "case <-time.After(5 * time.Second):"))
+	flag("stopctxDefaultFiveSeconds", "StopWithContext without Timeout and without a context deadline uses 5 s", strings.Contains(swc, "timeout = 5 * time.Second"))
 	b.WriteString("\nend NLE.Gen\n")
 	writeFile(out, "Shape.lean", b.String())
 }
